@@ -22,7 +22,7 @@ DET_K = 3
 CASE_TIMEOUT = 600
 SELFTEST = {'quick': 8, 'thorough': 96}
 TOL = 1e-9
-REQUIRED_PROBES = ['edge_fEq', 'edge_null', 'edge_periodic', 'shift_beyond_domain', 'tiny_shift', 'short_velocity_domain', 'dt_negative', 'iota_nonzero']
+REQUIRED_PROBES = ['edge_fEq', 'edge_null', 'edge_periodic', 'shift_beyond_domain', 'tiny_shift', 'short_velocity_domain', 'asymmetric_velocity_domain', 'dt_negative', 'iota_nonzero']
 RULE = ('case = (grid sizes, v spline degree 2-5 [3 = uniform-cubic path], constants with rotational '
         'transform zero or not, boundary mode fEq / null / periodic, dt of either sign, random f and a random '
         'real potential whose amplitude spans 6 decades so that shifts range from 0 to beyond the domain, 1-3 '
@@ -43,7 +43,7 @@ def gen(rng, tier, idx):
     # would be invisible: cut the velocity domain (and heat the ions) so that it is O(1e-2..1e-1) there
     vmax = rng.choice([7.32, 3.0, 2.0, 1.5])
     ckw['vMax'] = vmax
-    ckw['vMin'] = -vmax
+    ckw['vMin'] = -round(vmax * rng.choice([1.0, 1.0, 0.6, 1.5]), 3)      # not necessarily symmetric about 0
     ckw['CTi'] = rng.choice([1.0, 1.0, 3.0])
     grids = phys.pick_grids(rng, npts, rng.choice([1, 2, 2, 3]))
     if rng.random() < 0.25 or not grids:
@@ -152,6 +152,8 @@ def run(case, tape=None):
         probes['iota_nonzero'] = 1
     if ckw.get('vMax', 7.32) < 7:
         probes['short_velocity_domain'] = 1
+    if ckw.get('vMin') is not None and ckw['vMin'] != -ckw.get('vMax', 7.32):
+        probes['asymmetric_velocity_domain'] = 1
     return M.finish(extra=dict(nontrivial=case['P'] > 1, probes=probes))
 
 
